@@ -15,6 +15,8 @@ Oracle (no Lean model involved), per case:
              that parses and (type, "") for every other block
   exact      the filtered read = the events of U whose call was accepted, in order (blocks, issues, ending);
              a rejected failing table raises nothing
+  rows       parse_blocks route: after every read the rows the caller passed in are unchanged (deep snapshot), and in
+             half of those cases all reads of the case run on the same row objects, not on a fresh copy per read
   content    all rows of a rejected TABLE block are replaced by junk (first cell of the block kept; same shape, or
              rows dropped / appended / shortened): the filtered read is unchanged, except that origin rows after the
              block move by the change in its number of rows
@@ -223,8 +225,11 @@ class Source:
 
     def __init__(self, api, sheets, tmp, sep=None, tag="s"):
         self.api, self.sep, self.tmp = api, sep, tmp
+        self.shared = False          # parse_blocks route: every read gets the SAME row objects (no copy per read)
+        self.last_rows = None
         if api == "parse_blocks":
             self.seen = [[list(r) for r in sheets[0]]]
+            self.snapshot = grid_to_json(self.seen[0])      # deep snapshot of what the caller holds
         elif api == "read_csv":
             self.text = "\n".join(sep.join(r) for r in sheets[0]) + "\n"
             self.seen = [[line.rstrip("\n").split(sep) for line in io.StringIO(self.text)]]
@@ -251,10 +256,16 @@ class Source:
         if fx is not None:
             kw["fixer"] = fixer_arg(fx)
         if self.api == "parse_blocks":
-            return parse_blocks(iter([list(r) for r in self.seen[0]]), **kw)
+            self.last_rows = self.seen[0] if self.shared else [list(r) for r in self.seen[0]]
+            return parse_blocks(iter(self.last_rows), **kw)
         if self.api == "read_csv":
             return read_csv(io.StringIO(self.text), sep=self.sep, **kw)
         return read_excel(self.path, **kw)
+
+
+def rows_mutated(src):
+    """did the last read change the rows its caller passed in (parse_blocks route)?"""
+    return src.api == "parse_blocks" and src.last_rows is not None and grid_to_json(src.last_rows) != src.snapshot
 
 
 def run_read(src, to, pred, tracker_kind, fx=None):
@@ -301,7 +312,7 @@ def run_read(src, to, pred, tracker_kind, fx=None):
         ending = {"escaped": type(e).__name__}
         events.append(["escaped", type(e).__name__])
     issues = [e[1] for e in events if e[0] == "issue"]
-    return {"blocks": blocks, "issues": issues, "ending": ending, "events": events}
+    return {"blocks": blocks, "issues": issues, "ending": ending, "events": events, "mutated": rows_mutated(src)}
 
 
 def segmentation(rows):
@@ -400,6 +411,11 @@ def one_case(rng, out, seed, idx, tmp, ops, pend, model_ok):
     elif api == "read_excel":
         sheets = [[[_san(c, True) for c in r] for r in rows] for rows in sheets]
     src = Source(api, sheets, tmp, sep, tag=f"c{idx}")
+    # half of the parse_blocks cases: all reads of the case (unfiltered, filtered, rewritten) run on the caller's own
+    # row objects, as a caller holding one list of rows would do
+    src.shared = api == "parse_blocks" and rng.random() < 0.5
+    if src.shared:
+        out.count("parse_blocks:same_row_objects_for_every_read")
     case = {"seed": seed, "index": idx, "api": api, "to": to, "tracker": tracker, "fixer": fx, "sep": sep,
             "sheets": [grid_to_json(s) for s in src.seen]}
     for k in kinds:
@@ -410,8 +426,14 @@ def one_case(rng, out, seed, idx, tmp, ops, pend, model_ok):
     out.count("fixer:" + str(fx))
 
     # --- frame: the unfiltered read, collecting; reported names from the pdtable form
-    U = run_read(src, to, None, "collecting", fx)
-    Upd = U if to == "pdtable" else run_read(src, "pdtable", None, "collecting", fx)
+    def unchanged(R, which):
+        if R["mutated"]:
+            out.fail("a read changed the rows its caller passed in", dict(case, read=which),
+                     grid_to_json(src.last_rows), src.snapshot, key="caller_rows_mutated")
+        return R
+
+    U = unchanged(run_read(src, to, None, "collecting", fx), "unfiltered")
+    Upd = U if to == "pdtable" else unchanged(run_read(src, "pdtable", None, "collecting", fx), "unfiltered pdtable")
     segs = [segmentation(rows) for rows in src.seen]
     flat = [(si, s) for si, sg in enumerate(segs) for s in sg]
     escaped = any(e[0] == "escaped" for e in U["events"]) or any(e[0] == "escaped" for e in Upd["events"])
@@ -450,7 +472,7 @@ def one_case(rng, out, seed, idx, tmp, ops, pend, model_ok):
         rec.append((bt.name, name))
         return as_verdict(vk, p(bt, name))
 
-    F = run_read(src, to, pred, tracker, fx)
+    F = unchanged(run_read(src, to, pred, tracker, fx), "filtered")
     rec_f = list(rec)
     n_tab = sum(1 for _, s in flat if s[0] == "TABLE")
     n_rej = sum(1 for (t, n) in rec_f if not p(BlockType[t], n))
@@ -567,6 +589,7 @@ def one_case(rng, out, seed, idx, tmp, ops, pend, model_ok):
     new_sheets = [list(map(list, s)) for s in src.seen]
     new_sheets[si] = seen_rows[:start] + new_block + seen_rows[start + n:]
     src2 = Source(api, new_sheets, tmp, sep, tag=f"c{idx}m")
+    src2.shared = src.shared
     same_outside = len(src.seen) == len(src2.seen) and all(
         (a[:start] + a[start + n:] if j == si else a) == (b[:start] + b[start + n2:] if j == si else b)
         for j, (a, b) in enumerate(zip(src.seen, src2.seen)))
@@ -578,6 +601,9 @@ def one_case(rng, out, seed, idx, tmp, ops, pend, model_ok):
         return
     rec.clear()
     F2 = run_read(src2, to, pred, tracker, fx)
+    if F2["mutated"]:
+        out.fail("a read changed the rows its caller passed in", dict(case, read="filtered, rewritten input"),
+                 grid_to_json(src2.last_rows), src2.snapshot, key="caller_rows_mutated")
     out.count("content:checked" + (":reshaped" if reshape else ""))
     if d:
         out.count("content:row_count_changed")
